@@ -192,6 +192,19 @@ func (w *World) globalInits() map[string]*Term {
 				continue
 			}
 			for k, v := range s.Mem {
+				if !strings.HasPrefix(k, "gaddr:") && strings.Contains(k, "(gaddr:") && !strings.Contains(k, "init$guard") && v != nil {
+					// a cell below a package-level variable (array element, field of one): usable when the variable is never
+					// assigned outside its initialiser
+					i := strings.Index(k, "(gaddr:")
+					name := k[i+len("(gaddr:"):]
+					if j := strings.IndexAny(name, "),"); j >= 0 {
+						name = name[:j]
+					}
+					if !assignedElsewhere[name] && (v.Kind == "const" || v.Kind == "func" || v.Kind == "structval" || v.Kind == "varargs") {
+						w.ginit[k] = v
+					}
+					continue
+				}
 				if !strings.HasPrefix(k, "gaddr:") || strings.Contains(k, "init$guard") {
 					continue
 				}
